@@ -100,9 +100,16 @@ class Potential_Form_Registry(object):
     from .. import potentialforms
     reserved = set([self._make_standard_name(name) for name, _pf in inspect.getmembers(potentialforms, _iscallable)])
 
+    # The expression library is case-insensitive: 'tab' and 'Tab' (or 'AS.zero' and 'as.zero') could not be told apart inside a formula.
+    lower_labels = set([k.lower() for k in self._potential_forms.keys()])
+    lower_labels.update([k.lower() for k in reserved])
+
     for d in definitions:
       if d.name in self._potential_forms or d.name in reserved:
         raise Potential_Form_Registry_Exception("[Table-Form:{0}] has the same label as an existing potential form: '{0}'".format(d.name))
+      if d.name.lower() in lower_labels:
+        raise Potential_Form_Registry_Exception("Potential form labels are not case-sensitive, the label of [Table-Form:{0}] differs from another form's label only in case".format(d.name))
+      lower_labels.add(d.name.lower())
 
       pf = builder.create_potential_form(d)
       table_forms[d.name] = pf
